@@ -255,6 +255,28 @@ fn norms(st: &mut Stats, rng: &mut Rng) {
         Outcome::Ok(p) => { let okk = p.rows() == r && p.cols() == c && (0..r).all(|i| (0..c).all(|j| p[(i, j)] == a[i][j] * s)); if !okk { st.violation("C03:f64*M:wrong-result", format!("s={} {}", s, d())); } }
         o => st.violation("C03:f64*M:panic", format!("{}; {}", o.describe(), d())),
     }
+    // scalar division on exactly divisible data with a non-dyadic divisor: every quotient is exactly representable,
+    // so the textbook result is bit-exact; `&m / s`, `m / s` and `m /= s` must all give it
+    let dv = *rng.pick(&[3.0, 7.0, 49.0, 10.0, 11.0, -49.0, 98.0]);
+    let kq: Vec<Vec<f64>> = (0..r).map(|_| (0..c).map(|_| rng.int(-60, 60) as f64).collect()).collect();
+    let mq = { let mut m = Matrix::<f64>::new(r, c, 0.0); for i in 0..r { for j in 0..c { m[(i, j)] = kq[i][j] * dv; } } m };
+    let okq = |p: &Matrix<f64>| p.rows() == r && p.cols() == c && (0..r).all(|i| (0..c).all(|j| p[(i, j)] == kq[i][j]));
+    for (name, out) in [("div(&M,s)", catch(|| &mq / dv)), ("div(M,s)", catch(|| mq.clone() / dv)), ("div_assign(s)", catch(|| { let mut t = mq.clone(); t /= dv; t }))] {
+        st.eval();
+        match out { Outcome::Ok(p) => if !okq(&p) { st.violation(&format!("C03:{}:f64:inexact-on-exact-data", name), format!("entries k*{} divided by {} are not the integers k={:?}", dv, dv, kq)); }, o => st.violation(&format!("C03:{}:f64:panic", name), o.describe()) }
+    }
+    // norms of entries spread over 200 decades with mixed signs (all norms representable): finite and ordered
+    if r * c > 0 {
+        let wide: Vec<Vec<f64>> = (0..r).map(|_| (0..c).map(|_| (if rng.bool() { 1.0 } else { -1.0 }) * 10f64.powi(rng.int(-100, 100) as i32)).collect()).collect();
+        let mw = { let mut m = Matrix::<f64>::new(r, c, 0.0); for i in 0..r { for j in 0..c { m[(i, j)] = wide[i][j]; } } m };
+        let mxw = wide.iter().flatten().fold(0.0f64, |p, q| p.max(q.abs()));
+        let s1: f64 = wide.iter().flatten().map(|v| v.abs()).sum();
+        st.eval();
+        match catch(|| (mw.norm_frob(), mw.norm_max())) {
+            Outcome::Ok((f, mx)) => if !(f.is_finite() && f >= mxw * (1.0 - 1e-12) && f <= s1 * (1.0 + 1e-12) && mx == mxw) { st.violation("C03:norm_frob:wide-range", format!("norm_frob = {:e}, norm_max = {:e} but max|a| = {:e}, sum|a| = {:e}; A={:?}", f, mx, mxw, s1, wide)); },
+            o => st.violation("C03:norm_frob:panic", o.describe()),
+        }
+    }
     st.count("norm-cases");
     if r * c > 1 { st.nontrivial(hmix(hash_str("norm"), a.iter().flatten().fold(0u64, |h, v| hmix(h, v.to_bits())))); }
 }
